@@ -502,10 +502,11 @@ package app
 
 //@ func (*app.App).stopActiveNodeOptimization
 //@   loop 1 invariant idx: -1 <= rangeindex && rangeindex < len(activeNodes)
-//@   loop 1 invariant len: len(nodes) == rangeindex + 1
+//@   loop 1 invariant len: len(nodes) <= rangeindex + 1 && (forall j int :: in_range(j, nodes) ==> nodes[j] != nil)
+//@   loop 1 invariant cover: forall i int :: 0 <= i && i <= rangeindex && regd(app.cluster, activeNodes[i]) ==> (exists j int :: in_range(j, nodes) && nodes[j].host == activeNodes[i])
 //@   loop 1 invariant quiet: tick == old(tick)
 //@   ensures C19.stop_active_frame [C19]: e_OptCreate == old(e_OptCreate) && e_Optimize == old(e_Optimize) && (forall h string :: d_optReg[h] ==> old(d_optReg)[h]) && noPromoteEffects() && g_ro == old(g_ro)
-//@   assert_at DisableAll#1 C19.stop_active_args [C19]: len(callarg1) == len(activeNodes)
+//@   assert_at DisableAll#1 C19.stop_active_args [C19]: len(callarg1) == len(nodes) && (forall i int :: in_range(i, activeNodes) && regd(app.cluster, activeNodes[i]) ==> (exists j int :: in_range(j, nodes) && nodes[j].host == activeNodes[i]))
 
 // ---- C04: the published active list --------------------------------------------------------------------
 
@@ -542,7 +543,6 @@ package app
 //@ define semiSyncFrameExcept(h string) = forall x string :: x != h ==> g_wait[x] == old(g_wait)[x] && g_ssMaster[x] == old(g_ssMaster)[x] && g_ssSlave[x] == old(g_ssSlave)[x]
 
 //@ func (*app.App).enableSemiSyncOnSlave
-//@   requires nonnil [safety]: slaveState != nil && masterState != nil && slaveState.SlaveState != nil && masterState.MasterState != nil
 //@   ensures C04.enable_ok [C04]: result == nil ==> g_ssSlave[host]
 //@   ensures C04.enable_frame [C04]: semiSyncFrameExcept(host) && g_ro == old(g_ro) && noPromoteEffects() && e_ChangeMaster == old(e_ChangeMaster) && e_SetActive == old(e_SetActive)
 //@   ensures C04.enable_flag_then_restart [C04]: e_StopSlave > old(e_StopSlave) || e_StopIO > old(e_StopIO) ==> resultof("SemiSyncSetSlave", 1) == nil
@@ -757,7 +757,7 @@ package app
 //@ func (*app.App).repairCluster
 //@   requires c20 [safety]: statesOK(app, clusterState) && statesOK(app, clusterStateDcs) && clusterState[master] != nil && clusterStateDcs[master] != nil && optOK(app)
 //@ func (*app.App).repairMasterNode
-//@   requires c20 [safety]: masterNode != nil && statesOK(app, clusterState) && statesOK(app, clusterStateDcs) && clusterState[masterNode.host] != nil && clusterStateDcs[masterNode.host] != nil
+//@   requires c20 [safety]: masterNode != nil && regd(app.cluster, masterNode.host) && optOK(app) && statesOK(app, clusterState) && statesOK(app, clusterStateDcs) && clusterState[masterNode.host] != nil && clusterStateDcs[masterNode.host] != nil
 //@ func (*app.App).repairReadOnlyOnMaster
 //@   requires c20 [safety]: masterNode != nil && masterState != nil
 //@ func (*app.App).repairSlaveNode
@@ -776,7 +776,8 @@ package app
 //@   loop 1 invariant dead: forall k string :: visited[k] && (!clusterState[k].PingOk || clusterState[k].SlaveState == nil) ==> contains(deadReplicas, k)
 //@   loop 2 invariant slaves: forall i int :: in_range(i, becomeActive) ==> clusterState[becomeActive[i]] != nil && clusterState[becomeActive[i]].SlaveState != nil
 //@   loop 3 invariant slaves: forall i int :: in_range(i, becomeActive) ==> clusterState[becomeActive[i]] != nil && clusterState[becomeActive[i]].SlaveState != nil
-//@   requires c20 [safety]: statesOK(app, clusterState) && clusterState[master] != nil && (forall i int :: in_range(i, activeNodes) ==> clusterState[activeNodes[i]] != nil && (clusterState[activeNodes[i]].SlaveState != nil || contains(oldActiveNodes, activeNodes[i]) || activeNodes[i] == master))
+//@   requires c20 [safety]: statesOK(app, clusterState) && clusterState[master] != nil
+//@   requires c20list [safety]: forall i int :: in_range(i, activeNodes) ==> clusterState[activeNodes[i]] != nil && (clusterState[activeNodes[i]].SlaveState != nil || contains(oldActiveNodes, activeNodes[i]) || activeNodes[i] == master)
 //@ func (*app.App).updateActiveNodes
 //@   requires c20 [safety]: statesOK(app, clusterState) && statesOK(app, clusterStateDcs) && clusterState[master] != nil && optOK(app)
 //@ func (*app.App).canShrinkActiveNodes
@@ -820,7 +821,7 @@ package app
 //@ func (*app.App).stateFirstRun
 //@   ensures C20.opt_ready [C20]: optOK(app)
 //@ func (*app.App).repairExternalReplication
-//@   requires c20 [safety]: masterNode != nil
+//@   requires c20 [safety]: masterNode != nil && regd(app.cluster, masterNode.host) && optOK(app)
 //@ func app.StartSlaveAlgorithm
 //@   requires c20 [safety]: app != nil && appOK(app) && node != nil
 //@ func app.ResetSlaveAlgorithm
@@ -857,3 +858,17 @@ package app
 //@   ensures C20.registry [C20]: true
 //@ func (*app.App).getNodePositions
 //@   ensures C20.pos_registered [C20]: forall i int :: in_range(i, result0) ==> regd(app.cluster, result0[i].host)
+//@ func (*app.App).initializeOptimizationModule
+//@   ensures C20.opt_ready [C20]: optOK(app)
+//@ func (*app.Timings).Get
+//@   requires known [safety]: has(t.m, tt)
+//@ func (*app.Timings).Set
+//@   requires known [safety]: has(t.m, tt) && t.m[tt] != nil
+//@ func (*app.Timings).SetIfZero
+//@   requires known [safety]: has(t.m, tt) && t.m[tt] != nil
+//@ func (*app.Timings).Clean
+//@   requires known [safety]: has(t.m, tt) && t.m[tt] != nil
+//@ func (*app.App).calcActiveNodesChanges
+//@   ensures C20.changes_known [C20]: (forall i int :: in_range(i, becomeActive) ==> clusterState[becomeActive[i]] != nil) && (forall i int :: in_range(i, becomeInactive) ==> clusterState[becomeInactive[i]] != nil) && (forall i int :: in_range(i, becomeDataLag) ==> clusterState[becomeDataLag[i]] != nil)
+//@   loop 1 invariant synckeys: forall i int :: in_range(i, syncReplicas) ==> clusterState[syncReplicas[i]] != nil
+//@   loop 3 invariant known: (forall i int :: in_range(i, becomeInactive) ==> clusterState[becomeInactive[i]] != nil) && (forall i int :: in_range(i, dataLagging) ==> clusterState[dataLagging[i]] != nil)
